@@ -31,6 +31,7 @@ func CacheSet(key string, t *Template) {
 	defer moot.Unlock()
 
 	cache[key] = t
+	verifParse("set", key, t)
 }
 
 // BuffaloRenderer implements the render.TemplateEngine interface allowing velvet to be used as a template engine
